@@ -54,6 +54,8 @@ def lmutOfJson (j : Json) : Except String LMut := do
   match ← argStr j "n" with
   | "setitem" => pure (.setitem (← argInt j "i") (← argT j "v"))
   | "setslice" => pure (.setslice (← argOptInt j "a") (← argOptInt j "b") (← argKind j) (← argTs j "vs"))
+  | "setsliceStep" => pure (.setsliceStep (← argOptInt j "a") (← argOptInt j "b") (← argInt j "s") (← argKind j) (← argTs j "vs"))
+  | "delsliceStep" => pure (.delsliceStep (← argOptInt j "a") (← argOptInt j "b") (← argInt j "s"))
   | "delitem" => pure (.delitem (← argInt j "i"))
   | "delslice" => pure (.delslice (← argOptInt j "a") (← argOptInt j "b"))
   | "append" => pure (.append (← argT j "v"))
